@@ -313,7 +313,7 @@ WARM_ATTRS = ("vertices", "edges", "faces", "area", "centroid", "length", "midpo
               "facets", "_edges", "angles", "inradius", "circumcenter", "foci", "lie_coordinates", "T", "shape", "tensor_shape", "rank", "size",
               "dim", "free_indices", "dtype")
 
-DERIVATIONS = (None, None, "translation*", "+point", "scaling*")
+DERIVATIONS = (None, None, "translation*", "+point", "scaling*", "k*identity")
 
 
 def warm(obj, point=None):
@@ -332,7 +332,7 @@ def warm(obj, point=None):
             pass
 
 
-def derive_moved(build, rows, how, m, warm_point=None, prepare=None):
+def derive_moved(build, rows, how, m, warm_point=None, prepare=None, positive=False):
     """Build the object with homogeneous vertex rows `rows` not directly but by derivation: construct its exact pre-image
     under an integer translation by m (or the scaling by 2), use it once (warm + optional prepare(obj0)), then move it with
     the library (translation(m) * obj0, obj0 + Point(m), scaling(2, ..) * obj0). All maps are exact in floating point, so the
@@ -341,6 +341,13 @@ def derive_moved(build, rows, how, m, warm_point=None, prepare=None):
     if how is None:
         return build(rows)
     d = rows.shape[-1] - 1
+    if how == "k*identity":
+        # the identity map given by a non-unit representative of its matrix: the same object, every vertex representative rescaled
+        obj0 = build(rows)
+        warm(obj0, warm_point(rows) if warm_point is not None else None)
+        if prepare is not None:
+            prepare(obj0)
+        return G.Transformation(np.eye(d + 1) * (-0.5 if (int(sum(m)) % 2 and not positive) else 2.0)) * obj0
     m = np.asarray(list(m)[:d] + [1] * max(0, d - len(m)), dtype=float)
     if how == "scaling*":
         rows0 = rows * np.append(np.full(d, 0.5), 1.0)
@@ -365,6 +372,9 @@ def rederive(obj, m, how="translation*"):
     moderately sized coordinates all three steps are exact up to rounding of the order of 1e-16, so every oracle that holds
     for obj holds for the result; what the intermediate object memoised must not show in the answers of the result."""
     d = obj.dim
+    if how == "k*identity":
+        warm(obj)
+        return G.Transformation(np.eye(d + 1) * (-0.5 if int(sum(m)) % 2 else 2.0)) * obj
     if how == "scaling*":
         # shrink by 1/2, use, enlarge by 2 (exact in binary floating point): lengths, areas and volumes of the intermediate differ
         away = G.scaling(*([0.5] * d)) * obj
